@@ -176,17 +176,21 @@ func namesSelf(entry, self string) bool {
 	return len(f) >= 2 && f[1] == self
 }
 
-// valid: a Connection token nominating Via or Content-Length is outside the
-// domain, the statement's clauses collide there (existing Via entries must be
-// kept and must not survive; the length must be untouched and must go).
+// valid: a Connection token nominating Content-Length is outside the domain
+// (the length must be untouched / checked for conflicts and must go).
 // Nominating X-Forwarded-* is inside: the received header is hop-by-hop by
 // nomination and must not survive, and the forwarded request still carries
-// this proxy's own X-Forwarded-* for the hop.
+// this proxy's own X-Forwarded-* for the hop. Nominating Via is inside as far
+// as the clauses agree: a request whose received Via names this instance is
+// stopped whatever its Connection header says (stopping it satisfies every
+// clause), and a forwarded one ends with exactly one entry for this proxy;
+// whether the received members are kept ("appended after any existing ones")
+// or dropped ("named in Connection") is left open - both are accepted.
 func valid(c Case) bool {
 	id := func(s string) string { return s }
 	for _, lines := range [][]HL{c.Req, c.Res} {
 		for n := range hopSet(collect(lines, id)) {
-			if n == "Via" || n == "Content-Length" || n == "Host" {
+			if n == "Content-Length" || n == "Host" {
 				return false
 			}
 		}
@@ -207,6 +211,7 @@ type reqModel struct {
 	clConflict bool
 	clValue    string
 	teBad      bool
+	noHost     bool // the request has no Host (HTTP/1.0 read from a tunnel): the host is the URL's
 }
 
 func modelRequest(c Case, subst func(string) string, self string) reqModel {
@@ -237,7 +242,7 @@ func modelRequest(c Case, subst func(string) string, self string) reqModel {
 	}
 	if te := m.in["Transfer-Encoding"]; len(te) > 0 {
 		last := strings.Split(te[len(te)-1], ",")
-		m.teBad = trimOWS(last[len(last)-1]) != "chunked"
+		m.teBad = !strings.EqualFold(trimOWS(last[len(last)-1]), "chunked") // coding names are case-insensitive
 	}
 	return m
 }
@@ -270,6 +275,9 @@ func checkForwarded(m reqModel, out http.Header, where, ip, proto, host, u strin
 			want, shape = []string{x.def}, "connection-nominated"
 		case len(want) == 0:
 			want, shape = []string{x.def}, "absent"
+		}
+		if x.name == "X-Forwarded-Host" && m.noHost && shape != "preexisting" {
+			shape += "-request-without-host"
 		}
 		if !equalStrings(want, out[x.name]) {
 			v.Addf("C14/forwarded/"+strings.ToLower(x.name)+"-"+shape+"/wrong-value", "%s%s: input %q (Connection lines %q), want %q, got %q", x.name, where, m.in[x.name], m.in["Connection"], want, out[x.name])
@@ -350,8 +358,32 @@ func checkChain(clause, what string, inLines, out []string, appended string, v *
 	v.Addf("C14/"+clause+"/"+shape+"/"+class, "%s: input lines %q, want members %q, got %q", what, inLines, want, got)
 }
 
+// checkVia: the forwarded request's Via = received members + exactly one entry
+// for this proxy. When a Connection token nominates Via the received members
+// may also be gone (see valid).
+func checkVia(m reqModel, out []string, stamp, self, where string, v *kit.Verdict) {
+	if !m.hop["Via"] {
+		checkChain("via", "Via"+where, m.in["Via"], out, stamp, v)
+		return
+	}
+	got := flatten(out)
+	own := 0
+	for _, e := range got {
+		if namesSelf(e, self) {
+			own++
+		}
+	}
+	ok := len(got) > 0 && got[len(got)-1] == stamp && own == 1 &&
+		(len(got) == 1 || equalStrings(got[:len(got)-1], m.viaPrev))
+	if !ok {
+		v.Addf("C14/via/connection-nominated/wrong-members", "Via%s nominated by Connection lines %q: received members %q, got %q; want exactly one entry %q for this proxy, last, after all received members or alone", where, m.in["Connection"], m.viaPrev, got, stamp)
+	}
+}
+
 func loopShape(m reqModel) string {
 	switch {
+	case m.hop["Via"]:
+		return "via-nominated-by-connection"
 	case m.clConflict && !m.loopFirst:
 		return "framing-error-and-self-in-later-via-line"
 	case m.clConflict:
@@ -438,6 +470,7 @@ func runInproc(c Case) kit.Verdict {
 	}
 
 	m := modelRequest(c, subst, self)
+	m.noHost = c.Host == ""
 	req := newReq(c, c.Req, subst)
 	ctx, remove, err := martian.TestContext(req, nil, nil)
 	if err != nil {
@@ -476,9 +509,13 @@ func runInproc(c Case) kit.Verdict {
 		if m.clConflict && equalStrings(flatten(req.Header["Via"]), m.viaPrev) {
 			v.Addf("C14/via/framing-error/not-stamped", "request flagged for conflicting Content-Length %q is not marked to skip the round trip, yet carries no Via entry for this proxy: %q", m.in["Content-Length"], req.Header["Via"])
 		} else {
-			checkChain("via", "Via", m.in["Via"], req.Header["Via"], stamp, &v)
+			checkVia(m, req.Header["Via"], stamp, self, "", &v)
 		}
-		checkForwarded(m, req.Header, "", clientIP(c.Remote), c.Scheme, c.Host, c.originalURL(c.Scheme), &v)
+		host := c.Host
+		if host == "" {
+			host = c.URLHost // "reflect the original URL"
+		}
+		checkForwarded(m, req.Header, "", clientIP(c.Remote), c.Scheme, host, c.originalURL(c.Scheme), &v)
 		// Content-Length: untouched, or reduced to the one common value
 		if cl := m.in["Content-Length"]; len(cl) > 0 && !m.clConflict {
 			got := req.Header["Content-Length"]
@@ -536,6 +573,9 @@ func runInproc(c Case) kit.Verdict {
 // ---------------------------------------------------------------- generator
 
 var xfNames = []string{"X-Forwarded-For", "X-Forwarded-Proto", "X-Forwarded-Host", "X-Forwarded-Url"}
+
+// nomManaged: stack-maintained headers a Connection token may nominate.
+var nomManaged = append(append([]string{}, xfNames...), "Via", "Via")
 
 var (
 	extPool   = []string{"X-Ext-A", "Foo", "X-Custom-Hop", "Bar-Baz"}
@@ -630,7 +670,7 @@ func genHeaders(t *rapid.T, o genOpts) []HL {
 					tok = "keep-alive"
 				}
 			case 9, 10:
-				tok = rapid.SampledFrom(xfNames).Draw(t, "tok_xf")
+				tok = rapid.SampledFrom(nomManaged).Draw(t, "tok_xf")
 			default:
 				tok = ""
 			}
@@ -788,7 +828,7 @@ func genFraming(t *rapid.T) []HL {
 // "chunked" at any position (first-not-last, middle, last, repeated, absent);
 // in half of the draws the final coding is forced to "chunked".
 func genTE(t *rapid.T) []HL {
-	codings := []string{"chunked", "chunked", "gzip", "deflate", "identity"}
+	codings := []string{"chunked", "chunked", "chunked", "Chunked", "CHUNKED", "gzip", "gzip", "deflate", "identity", "GZip"}
 	lines := make([][]string, rapid.IntRange(1, 3).Draw(t, "te_lines"))
 	for i := range lines {
 		for j, k := 0, rapid.IntRange(1, 3).Draw(t, "te_codings"); j < k; j++ {
@@ -797,7 +837,7 @@ func genTE(t *rapid.T) []HL {
 	}
 	if rapid.Bool().Draw(t, "te_end_chunked") {
 		l := lines[len(lines)-1]
-		l[len(l)-1] = "chunked"
+		l[len(l)-1] = rapid.SampledFrom([]string{"chunked", "chunked", "chunked", "Chunked", "CHUNKED"}).Draw(t, "te_final")
 	}
 	var out []HL
 	for _, l := range lines {
@@ -836,6 +876,9 @@ func genAddressing(t *rapid.T, c *Case) {
 		c.Host = "virtual.example"
 	}
 	genTarget(t, c)
+	if rapid.IntRange(0, 9).Draw(t, "no_host") == 0 {
+		c.Host = "" // an HTTP/1.0 request without Host, addressed by the proxy to the tunnel's host
+	}
 	c.Status = rapid.SampledFrom([]int{200, 204, 301, 404, 500}).Draw(t, "status")
 }
 
@@ -940,7 +983,10 @@ func classes(c Case) []string {
 	add(c.ForceQuery, "url-bare-question-mark")
 	add(c.UserInfo != "", "url-userinfo")
 	add(strings.HasPrefix(c.Remote, "["), "remote-v6")
-	add(c.Host != c.URLHost, "host-differs-from-url")
+	add(c.Host != c.URLHost && c.Host != "", "host-differs-from-url")
+	add(c.Host == "", "request-without-host")
+	add(m.hop["Via"], "conn-nominates-via")
+	add(m.hop["Via"] && m.loop, "conn-nominates-via-with-self")
 	add(c.Proto != "1.1", "proto-not-1.1")
 	return cl
 }
@@ -962,7 +1008,8 @@ var propStack = &kit.Prop[Case]{
 		"nontrivial": 0.5, "conn-noncanonical": 0.15, "conn-nominates-present-ext": 0.15, "via-preexisting": 0.4,
 		"via-multi-line": 0.2, "via-self": 0.15, "via-self-later-line": 0.03, "via-near-miss": 0.08,
 		"xff-multi-line": 0.1, "framing-cl-conflict": 0.1, "framing-te-bad": 0.1, "res-conn-nominates-present-ext": 0.15,
-		"remote-v6": 0.2, "host-differs-from-url": 0.2,
+		"remote-v6": 0.2, "host-differs-from-url": 0.2, "request-without-host": 0.05,
+		"conn-nominates-via": 0.05, "conn-nominates-via-with-self": 0.015,
 		"conn-nominates-x-forwarded": 0.1, "conn-nominates-x-forwarded-present": 0.05,
 		"user-response-modifier-fails": 0.15, "user-request-modifier-fails": 0.1, "url-raw-path-kept": 0.25, "url-bare-question-mark": 0.05, "url-userinfo": 0.1,
 	},
@@ -979,7 +1026,7 @@ func TestStack(t *testing.T) {
 
 var propEnum = &kit.Prop[Case]{
 	ID: "C14", Name: "enumerated",
-	Rule: "ALL of: (a) each fixed, extension or X-Forwarded-* name nominated by a Connection token in 4 spellings x 5x5 surrounding whitespace x 4 positions (alone, first of two, second of two, on a second Connection line), on the request and on the response; (b) Via chains of 1..3 lines x 1..2 foreign members with this instance at every position or absent, x 3 protocol versions; (c) X-Forwarded-For of 0..3 lines x 1..2 members; non-trivial = all",
+	Rule: "ALL of: (a) each fixed, extension or X-Forwarded-* name and Via nominated by a Connection token in 4 spellings x 5x5 surrounding whitespace x 4 positions (alone, first of two, second of two, on a second Connection line), on the request and on the response; (b) Via chains of 1..3 lines x 1..2 foreign members with this instance at every position or absent, x 3 protocol versions x Connection in {absent, Via, keep-alive+vIA}; (c) X-Forwarded-For of 0..3 lines x 1..2 members; non-trivial = all",
 	Run:  runInproc, NonTrivial: func(Case) bool { return true }, Classes: classes,
 }
 
@@ -1011,7 +1058,7 @@ func TestEnumerated(t *testing.T) {
 	ws := []string{"", " ", "  ", "\t", " \t "}
 	propEnum.Enumerate(t, func(yield func(Case) bool) {
 		// (a) Connection nominations
-		names := append(append(append([]string{}, fixedHop[1:]...), "X-Ext-A", "Foo"), xfNames...)
+		names := append(append(append(append([]string{}, fixedHop[1:]...), "X-Ext-A", "Foo"), xfNames...), "Via")
 		for _, n := range names {
 			for k := 0; k < 4; k++ {
 				for _, pre := range ws {
@@ -1066,17 +1113,22 @@ func TestEnumerated(t *testing.T) {
 							maxPos = len(lines[sl])
 						}
 						for sp := 0; sp <= maxPos; sp++ {
-							c := baseCase()
-							c.Proto = proto
-							for i, l := range lines {
-								m := append([]string{}, l...)
-								if i == sl {
-									m = append(append(append([]string{}, l[:sp]...), "1.0 {self}"), l[sp:]...)
+							for _, conn := range []string{"", "Via", "keep-alive , vIA"} {
+								c := baseCase()
+								c.Proto = proto
+								if conn != "" {
+									c.Req = append(c.Req, HL{N: "Connection", V: conn})
 								}
-								c.Req = append(c.Req, HL{N: "Via", V: strings.Join(m, ", ")})
-							}
-							if !yield(c) {
-								return
+								for i, l := range lines {
+									m := append([]string{}, l...)
+									if i == sl {
+										m = append(append(append([]string{}, l[:sp]...), "1.0 {self}"), l[sp:]...)
+									}
+									c.Req = append(c.Req, HL{N: "Via", V: strings.Join(m, ", ")})
+								}
+								if !yield(c) {
+									return
+								}
 							}
 						}
 					}
